@@ -5,6 +5,7 @@ import errno
 import os
 import os.path
 from collections.abc import Iterable, AsyncIterable
+from contextlib import suppress
 from datetime import datetime
 from mailbox import Maildir as _Maildir, MaildirMessage
 from typing import Any, Final, Literal, Self
@@ -289,12 +290,18 @@ class MailboxData(MailboxDataInterface[Message]):
                                              self.maildir_flags)
             key = maildir.add(maildir_msg)
             filename = key + ':' + maildir_msg.get_info()
-        async with UidList.with_write(self._path) as uidl:
-            fields = {'E': email_id.value.decode('ascii'),
-                      'T': thread_id.value.decode('ascii')}
-            new_rec = Record(uidl.next_uid, fields, filename)
-            uidl.next_uid += 1
-            uidl.set(new_rec)
+        try:
+            async with UidList.with_write(self._path) as uidl:
+                fields = {'E': email_id.value.decode('ascii'),
+                          'T': thread_id.value.decode('ascii')}
+                new_rec = Record(uidl.next_uid, fields, filename)
+                uidl.next_uid += 1
+                uidl.set(new_rec)
+        except BaseException:
+            # no UID was assigned, do not leave the file behind
+            with suppress(KeyError, OSError):
+                maildir.remove(key)
+            raise
         return Message.from_maildir(
             new_rec.uid, maildir_msg, maildir, key, email_id, thread_id,
             self.maildir_flags)
@@ -314,10 +321,16 @@ class MailboxData(MailboxDataInterface[Message]):
         async with destination.messages_lock.write_lock():
             dest_key = dest_maildir.add(copy_msg)
             dest_filename = dest_key + ':' + copy_msg.get_info()
-        async with UidList.with_write(destination._path) as uidl:
-            new_rec = Record(uidl.next_uid, record.fields, dest_filename)
-            uidl.next_uid += 1
-            uidl.set(new_rec)
+        try:
+            async with UidList.with_write(destination._path) as uidl:
+                new_rec = Record(uidl.next_uid, record.fields, dest_filename)
+                uidl.next_uid += 1
+                uidl.set(new_rec)
+        except BaseException:
+            # no UID was assigned, do not leave the file behind
+            with suppress(KeyError, OSError):
+                dest_maildir.remove(dest_key)
+            raise
         return new_rec.uid
 
     async def move(self, uid: int, destination: MailboxData, *,
